@@ -191,6 +191,7 @@ def main():
     # a change that makes many cases slow must not make the check run for hours: past the deadline
     # no further case is started (remaining cases come back as SKIPPED, which no oracle accepts)
     vlib.DEADLINE = time.time() + (1500 if a.tier == "quick" else 5400)
+    vlib.HEAVY_TAIL = a.tier != "quick"          # random documents get a heavy tail of widths in the thorough tier
     # 1. harness against /repo's working tree
     try:
         ctx.notes["cargo_build_s"] = round(vlib.build_harness(), 1)
